@@ -607,3 +607,19 @@ func ValidMethod(m int64) bool { return m >= 1 && m <= 6 }
 
 // ValidXff: a number within [0,1].
 func ValidXff(x float32) bool { return x >= 0 && x <= 1 }
+
+// EncodeHeader2 encodes the header the format prescribes for arbitrary (possibly
+// invalid) fields: offsets and max retention are the low 32 bits of their true values.
+func EncodeHeader2(method int64, xffBits uint32, archs []Arch) []byte {
+	off := int64(16 + 12*len(archs))
+	var o32, st, pt []uint32
+	var maxRet int64
+	for _, a := range archs {
+		o32 = append(o32, uint32(off))
+		st = append(st, a.Step)
+		pt = append(pt, a.Points)
+		off += 12 * int64(a.Points)
+		maxRet = a.Ret()
+	}
+	return EncodeHeaderRaw(uint32(method), uint32(maxRet), xffBits, uint32(len(archs)), o32, st, pt)
+}
